@@ -169,14 +169,14 @@ theorem node_ann_authentic_fresh (cfg : Cfg) (now : Nat) (s : State) (p : Peer) 
           · simp [h1, h2] at hne'
 
 /-- Every node record belongs to our own node or to an endpoint of a known channel. -/
-def NodesAreEndpoints (cfg : Cfg) (g : Graph) : Prop :=
+def NodesAreEndpoints (self : Key) (g : Graph) : Prop :=
   ∀ k ni, lookup k g.nodes = some ni →
-    k = cfg.self ∨ ∃ c ci, lookup c g.chans = some ci ∧ (ci.n1 = k ∨ ci.n2 = k)
+    k = self ∨ ∃ c ci, lookup c g.chans = some ci ∧ (ci.n1 = k ∨ ci.n2 = k)
 
 /-- `NodesAreEndpoints` holds initially (only the source node) and is preserved by every
     submission: "a node announcement is applied only if the node has a known channel". -/
-theorem nodes_are_endpoints (cfg : Cfg) (now : Nat) (s : State) (p : Peer) (m : Msg)
-    (inv : NodesAreEndpoints cfg s.g) : NodesAreEndpoints cfg (submit cfg now s p m).2.st.g := by
+theorem nodes_are_endpoints (cfg : Cfg) (self : Key) (now : Nat) (s : State) (p : Peer) (m : Msg)
+    (inv : NodesAreEndpoints self s.g) : NodesAreEndpoints self (submit cfg now s p m).2.st.g := by
   intro k ni hk
   by_cases hsame : lookup k (submit cfg now s p m).2.st.g.nodes = lookup k s.g.nodes
   · -- the record was there before: its channel is still there
@@ -213,6 +213,42 @@ theorem nodes_are_endpoints (cfg : Cfg) (now : Nat) (s : State) (p : Peer) (m : 
         · rcases hka with h | h
           · left; exact h.symm
           · right; exact h.symm
+
+/-! ### the zombie index -/
+
+/-- The zombie index (not consulted by path finding, but part of the graph DB) changes at scid `c`
+    only (a) by marking `c` with zero keys when a channel announcement for `c` with four valid
+    signatures has no acceptable funding output (missing, wrong script, spent) — so that the
+    announcement is not re-validated — or (b) by removing `c` for a channel update (submitted, or
+    cached and replayed) on our chain, with non-zero timestamp inside the prune horizon, signed by
+    the key the index recorded for the update's direction. -/
+theorem zombie_index_authentic (cfg : Cfg) (now : Nat) (s : State) (p : Peer) (m : Msg) (c : Scid)
+    (hne : lookup c (submit cfg now s p m).2.st.g.zombies ≠ lookup c s.g.zombies) :
+    (∃ a, m = .ca a ∧ a.scid = c ∧ a.chain = 0 ∧ CaSigned a ∧ cfg.assumeValid = false ∧
+        BadFunding s a ∧ lookup c (submit cfg now s p m).2.st.g.zombies = some (0, 0)) ∨
+    (∃ u, (m = .cu u ∨ ∃ a p', m = .ca a ∧ (p', u) ∈ (lookup a.scid s.premature).getD []) ∧
+        u.scid = c ∧ ZombieResurrect cfg now (lookup c s.g.zombies) u ∧
+        lookup c (submit cfg now s p m).2.st.g.zombies = none) := by
+  cases m with
+  | cu u =>
+    rw [submit_cu] at hne ⊢
+    simp only at hne ⊢
+    rcases dispatch_cu_zombies cfg now s p u with h | ⟨hres, h⟩
+    · exact absurd (by rw [h]) hne
+    · rw [h] at hne ⊢
+      by_cases hc : u.scid = c
+      · right
+        exact ⟨u, Or.inl rfl, hc, by rw [← hc]; exact hres, by rw [← hc, lookup_erase_self]⟩
+      · exact absurd (lookup_erase_ne _ (fun e => hc e.symm)) hne
+  | na n =>
+    rw [submit_na] at hne
+    exact absurd (by simp only; rw [stepNode_zombies]) hne
+  | ca a =>
+    rcases submit_ca_zombies cfg now s p a c with h | ⟨hs, hch, hsg, hav, hbad, hl⟩ |
+      ⟨pu, hmem, hs, hres, hl⟩
+    · exact absurd h hne
+    · left; exact ⟨a, rfl, hs, hch, hsg, hav, hbad, hl⟩
+    · right; exact ⟨pu.2, Or.inr ⟨a, pu.1, rfl, hmem⟩, hs, hres, hl⟩
 
 /-! ### else_unchanged_not_relayed -/
 
@@ -513,13 +549,13 @@ theorem history_chans_authentic (cfg : Cfg) (hav : cfg.assumeValid = false)
 
 /-- Over every history, node records exist only for our own node and for endpoints of known
     channels: a node announcement for a node without a known channel never enters the graph. -/
-theorem history_nodes_are_endpoints (cfg : Cfg) (hist : List (Nat × Peer × Msg)) (s : State)
-    (inv : NodesAreEndpoints cfg s.g) : NodesAreEndpoints cfg (run cfg s hist).g := by
+theorem history_nodes_are_endpoints (cfg : Cfg) (self : Key) (hist : List (Nat × Peer × Msg))
+    (s : State) (inv : NodesAreEndpoints self s.g) : NodesAreEndpoints self (run cfg s hist).g := by
   induction hist generalizing s with
   | nil => exact inv
   | cons x xs ih =>
     obtain ⟨now, p, m⟩ := x
-    exact ih _ (nodes_are_endpoints cfg now s p m inv)
+    exact ih _ (nodes_are_endpoints cfg self now s p m inv)
 
 /-- Over every history, the timestamp stored for a channel direction never decreases and every
     change of it is strict (stale and equal-timestamp updates never replace a policy). -/
@@ -540,6 +576,171 @@ theorem history_policy_ts_monotone (cfg : Cfg) (hist : List (Nat × Peer × Msg)
       have : u.policy.ts = u.ts := rfl
       exact ⟨new, hn, by omega⟩
 
+/-! ### histories with new blocks and pruning -/
+
+/-- `submitCore` (used for the replay of future-height messages) is `submit` of a configuration
+    whose own key is none of the announcement's node ids. -/
+theorem submitCore_eq_submit (cfg : Cfg) (now : Nat) (s : State) (p : Peer) (m : Msg) :
+    ∃ cfg' : Cfg, cfg'.assumeValid = cfg.assumeValid ∧ cfg'.expiry = cfg.expiry ∧
+      submitCore cfg now s p m = submit cfg' now s p m := by
+  cases m with
+  | cu u => exact ⟨cfg, rfl, rfl, rfl⟩
+  | na n => exact ⟨cfg, rfl, rfl, rfl⟩
+  | ca a =>
+    refine ⟨{ cfg with self := a.n1 + a.n2 + 1 }, rfl, rfl, ?_⟩
+    have h : ¬ (a.n1 = a.n1 + a.n2 + 1 ∨ a.n2 = a.n1 + a.n2 + 1) := by
+      intro h
+      rcases h with h | h
+      · exact absurd h (Nat.ne_of_lt (by show a.n1 < a.n1 + a.n2 + 1; exact Nat.lt_succ_of_le (Nat.le_add_right _ _)))
+      · exact absurd h (Nat.ne_of_lt (by show a.n2 < a.n1 + a.n2 + 1; exact Nat.lt_succ_of_le (Nat.le_add_left _ _)))
+    simp only [submit, h, if_false]
+    rfl
+
+/-- one elementary transition of the gossip intake: a message going through `submit` (under a
+    configuration with the same validation switches), the bookkeeping of a new block (height and
+    future-message queue only), or the pruning of a closed channel -/
+inductive Micro (cfg : Cfg) (self : Key) : State → State → Prop where
+  | msg (cfg' : Cfg) (hav : cfg'.assumeValid = cfg.assumeValid) (hex : cfg'.expiry = cfg.expiry)
+      (now : Nat) (s : State) (p : Peer) (m : Msg) : Micro cfg self s (submit cfg' now s p m).2.st
+  | tick (s : State) (h : Nat) (f : List (Nat × (Peer × Msg))) :
+      Micro cfg self s { s with height := h, future := f }
+  | prune (s : State) (c : Scid) : Micro cfg self s { s with g := s.g.prune self c }
+
+inductive Reach (cfg : Cfg) (self : Key) : State → State → Prop where
+  | refl (s : State) : Reach cfg self s s
+  | step {s s1 s2 : State} : Reach cfg self s s1 → Micro cfg self s1 s2 → Reach cfg self s s2
+
+theorem Reach.trans {cfg : Cfg} {self : Key} {a b c : State} (h1 : Reach cfg self a b)
+    (h2 : Reach cfg self b c) : Reach cfg self a c := by
+  induction h2 with
+  | refl => exact h1
+  | step _ hm ih => exact Reach.step ih hm
+
+/-- the events of a history: a remote message, a new block (which replays the matured future
+    messages), the pruning of a channel whose funding output was spent -/
+inductive Event where
+  | msg (now : Nat) (p : Peer) (m : Msg)
+  | block (now : Nat) (h : Nat)
+  | prune (c : Scid)
+
+def stepEvent (cfg : Cfg) (s : State) : Event → State
+  | .msg now p m => (submit cfg now s p m).2.st
+  | .block now h => (newBlock cfg now s h).st
+  | .prune c => { s with g := s.g.prune cfg.self c }
+
+def runEvents (cfg : Cfg) : State → List Event → State
+  | s, [] => s
+  | s, e :: r => runEvents cfg (stepEvent cfg s e) r
+
+theorem foldBlock_reach (cfg : Cfg) (self : Key) (now : Nat) (l : List (Nat × (Peer × Msg))) :
+    ∀ acc : Acc, Reach cfg self acc.st
+      (l.foldl (fun (acc : Acc) (e : Nat × (Peer × Msg)) =>
+        let (r, a) := submitCore cfg now acc.st e.2.1 e.2.2
+        (⟨a.st, acc.relay ++ a.relay, acc.replayed ++ [(e.2.2, r)] ++ a.replayed⟩ : Acc))
+        acc).st := by
+  induction l with
+  | nil => intro acc; exact Reach.refl _
+  | cons e es ih =>
+    intro acc
+    simp only [List.foldl]
+    refine Reach.trans ?_ (ih _)
+    obtain ⟨cfg', hav, hex, heq⟩ := submitCore_eq_submit cfg now acc.st e.2.1 e.2.2
+    rw [heq]
+    exact Reach.step (Reach.refl _) (Micro.msg cfg' hav hex now acc.st e.2.1 e.2.2)
+
+theorem newBlock_reach (cfg : Cfg) (self : Key) (now : Nat) (s : State) (h : Nat) :
+    Reach cfg self s (newBlock cfg now s h).st := by
+  unfold newBlock
+  exact Reach.trans
+    (Reach.step (Reach.refl _) (Micro.tick s h (s.future.filter (fun e => ¬ e.1 ≤ h))))
+    (foldBlock_reach cfg self now
+      ((s.future.filter (fun e => e.1 ≤ h)).filter (fun e => isCa e.2.2) ++
+        (s.future.filter (fun e => e.1 ≤ h)).filter (fun e => !isCa e.2.2))
+      ⟨{ s with height := h, future := s.future.filter (fun e => ¬ e.1 ≤ h) }, [], []⟩)
+
+theorem runEvents_reach (cfg : Cfg) (evs : List Event) :
+    ∀ s, Reach cfg cfg.self s (runEvents cfg s evs) := by
+  induction evs with
+  | nil => intro s; exact Reach.refl _
+  | cons e es ih =>
+    intro s
+    refine Reach.trans ?_ (ih _)
+    cases e with
+    | msg now p m => exact Reach.step (Reach.refl _) (Micro.msg cfg rfl rfl now s p m)
+    | block now h => exact newBlock_reach cfg cfg.self now s h
+    | prune c => exact Reach.step (Reach.refl _) (Micro.prune s c)
+
+/-- pruning keeps exactly the nodes that still are endpoints (or our own node) -/
+theorem prune_nodes_are_endpoints (self : Key) (g : Graph) (c : Scid) :
+    NodesAreEndpoints self (g.prune self c) := by
+  intro k ni hk
+  have hk' : lookup k (g.nodes.filter
+      (fun kn => (fun k => k == self || endpointOf (erase c g.chans) k) kn.1)) = some ni := hk
+  obtain ⟨hq, _⟩ := lookup_filter_key
+    (fun k => k == self || endpointOf (erase c g.chans) k) k ni g.nodes hk'
+  simp only [Bool.or_eq_true, beq_iff_eq] at hq
+  rcases hq with h | h
+  · exact Or.inl h
+  · right
+    unfold endpointOf at h
+    obtain ⟨ch, _, hch⟩ := List.any_eq_true.1 h
+    simp only [Bool.and_eq_true, beq_iff_eq, Bool.or_eq_true] at hch
+    exact ⟨ch.1, ch.2, hch.1, hch.2⟩
+
+/-- Over every history of messages, new blocks (with the replay of future-height messages) and
+    prunings of closed channels, node records exist only for our own node and for endpoints of
+    channels that are still in the graph. -/
+theorem reach_nodes_are_endpoints (cfg : Cfg) (self : Key) (s s' : State)
+    (hr : Reach cfg self s s') (inv : NodesAreEndpoints self s.g) : NodesAreEndpoints self s'.g := by
+  induction hr with
+  | refl => exact inv
+  | step _ hm ih =>
+    cases hm with
+    | msg cfg' _ _ now s1 p m => exact nodes_are_endpoints cfg' self now _ p m ih
+    | tick s1 h f => exact ih
+    | prune s1 c => exact prune_nodes_are_endpoints self _ c
+
+theorem events_nodes_are_endpoints (cfg : Cfg) (evs : List Event) (s : State)
+    (inv : NodesAreEndpoints cfg.self s.g) : NodesAreEndpoints cfg.self (runEvents cfg s evs).g :=
+  reach_nodes_are_endpoints cfg cfg.self s _ (runEvents_reach cfg evs s) inv
+
+/-- Over every such history (AssumeChannelValid off): a channel of the final graph was either in
+    the initial graph or was put there, in some intermediate state `s1` of the history, by a
+    channel announcement with four valid signatures whose funding output was present, unspent and
+    correct in `s1`; this covers announcements replayed from the future-message queue. -/
+theorem reach_chans_authentic (cfg : Cfg) (self : Key) (hav : cfg.assumeValid = false)
+    (s s' : State) (hr : Reach cfg self s s') (c : Scid) (ci : ChanInfo)
+    (h : lookup c s'.g.chans = some ci) :
+    lookup c s.g.chans = some ci ∨
+    ∃ s1 a v, Reach cfg self s s1 ∧ a.scid = c ∧ a.chain = 0 ∧ CaSigned a ∧ FundingOk s1 a v ∧
+      ci = a.info v := by
+  induction hr generalizing ci with
+  | refl => exact Or.inl h
+  | @step s1 s2 hr1 hm ih =>
+    cases hm with
+    | msg cfg' hav' _ now _ p m =>
+      by_cases hsame : lookup c (submit cfg' now s1 p m).2.st.g.chans = lookup c s1.g.chans
+      · exact ih ci (by rw [← hsame]; exact h)
+      · right
+        obtain ⟨a, v, _, hs, hc, hsg, hf, _, hl⟩ :=
+          chan_ann_authentic cfg' (by rw [hav', hav]) now s1 p m c hsame
+        rw [hl] at h
+        exact ⟨s1, a, v, hr1, hs, hc, hsg, hf, by cases h; rfl⟩
+    | tick _ hh f => exact ih ci h
+    | prune _ c' =>
+      have h' : lookup c (erase c' s1.g.chans) = some ci := h
+      by_cases hc : c = c'
+      · subst hc; rw [lookup_erase_self] at h'; cases h'
+      · rw [lookup_erase_ne _ hc] at h'
+        exact ih ci h'
+
+theorem events_chans_authentic (cfg : Cfg) (hav : cfg.assumeValid = false) (evs : List Event)
+    (s : State) (c : Scid) (ci : ChanInfo) (h : lookup c (runEvents cfg s evs).g.chans = some ci) :
+    lookup c s.g.chans = some ci ∨
+    ∃ s1 a v, Reach cfg cfg.self s s1 ∧ a.scid = c ∧ a.chain = 0 ∧ CaSigned a ∧ FundingOk s1 a v ∧
+      ci = a.info v :=
+  reach_chans_authentic cfg cfg.self hav s _ (runEvents_reach cfg evs s) c ci h
+
 /-! ### non-vacuity: concrete instances of every hypothesis -/
 
 namespace Example
@@ -547,7 +748,7 @@ namespace Example
 def cfg : Cfg := ⟨99, false, 1209600, 86400, 10⟩
 def scid : Scid := 500 * 2 ^ 40 + 1 * 2 ^ 16
 def caBody : ChanAnn :=
-  { chain := 0, scid := scid, n1 := 1, n2 := 2, b1 := 4, b2 := 5, feat := "", tap := false,
+  { chain := 0, scid := scid, n1 := 1, n2 := 2, b1 := 4, b2 := 5, feat := "",
     extra := "", bs1 := .junk 0, bs2 := .junk 0, ns1 := .junk 0, ns2 := .junk 0 }
 def ca : ChanAnn :=
   { caBody with bs1 := .mk 4 caBody.digest, bs2 := .mk 5 caBody.digest,
@@ -578,7 +779,7 @@ example : (submit cfg now s1 8 (.ca ca)).2.relay = [.ca ca, .cu (upd 946684000 0
 example : lookup (scid, 1) s3.g.pols = some (upd 946684001 1 2).policy ∧
     lookup (scid, 1) s2.g.pols = none := by decide
 example : lookup 2 s4.g.nodes = some ⟨7, some "f"⟩ ∧ lookup 2 s3.g.nodes = some ⟨0, none⟩ := by decide
-example : NodesAreEndpoints cfg s0.g := by
+example : NodesAreEndpoints 99 s0.g := by
   intro k ni h
   have : k = 99 := by
     simp only [s0, lookup] at h
